@@ -17,6 +17,8 @@ FIXED = [
  ("C11", "must be a universal SEQUENCE", "an application- or context-class element numbered 16 was accepted as message envelope: signature C11.d|not-rejected/outer-not-sequence"),
  ("C17", "hanging when the server closes during StartTLS", "with_settings() never returned when the server closed the connection after reading the StartTLS request (also met by the C18 lane): signatures C17.process|process-stall, C18.process|process-stall"),
  ("C18", "without a host connects to localhost", "ldap:/// and ldaps:/// panicked ('unexpected None from url.host_str()'): signatures C18.panic|ldap/host-absent/.../panic"),
+ ("C03", "does not fit 32 bits is not truncated", "a result code that does not fit 32 bits (ENUMERATED of five or more significant octets, e.g. 0x1_0000_0000) was truncated with `as u32`: the caller saw rc=0, success() / non_error() accepted it: signature C03.helpers|code-beyond-32-bits-reads-as-success"),
+ ("C17", "does not fit 32 bits is not truncated", "the same truncation made with_settings() accept a StartTLS response carrying such a code as success and return a usable handle: signatures C17.b|ok-although-establishment-must-fail/CodeWide/*"),
  ("C18", "ldapi URL with a port is rejected", "ldapi://<path>:3 was accepted and the port ignored: signature C18.reject|ldapi/with-port/accepted"),
 ]
 def h(g):
